@@ -52,13 +52,17 @@ def make_diff(rng, enc, kind, damaged):
     nl = '\n' if kind == 'unix' else '\r\n'
 
     for _ in range(6):
-        lines, ins, dels, parsable = diffgen.gen_diff(rng, damaged=damaged)
-        lines = [l for l in lines if gen.enc_ok(l, enc or 'utf-8')]
+        lines, ins, dels, parsable = diffgen.gen_diff(
+            rng, damaged=damaged,
+            ok=lambda p: gen.enc_ok(p, enc or 'utf-8'))
 
         if not lines:
             continue
 
         rc = diffgen.reference_count(lines)
+
+        if not damaged and rc != (ins, dels):
+            raise AssertionError('diff generator and counter disagree')
 
         if damaged and rc is not None:
             continue
@@ -295,6 +299,7 @@ def execute(scn, L):
 
         if key in seen_ops:
             repeated = True
+            out.probe('repeated_generate_stats')
 
         seen_ops.append(key)
         want = copy.deepcopy(r['before'])
@@ -315,6 +320,11 @@ def execute(scn, L):
             return out
 
         ntext = max(ntext, classes.count('text'))
+
+        for c in classes:
+            out.probe('file_class:' + c)
+
+        out.probe('step_level:' + ('tree', 'change', 'file')[len(path)])
         d = domworld.first_diff(want, r['after'])
         level = ('tree', 'change', 'file')[len(path)]
         fs = ','.join(sorted(set(classes)))
